@@ -182,6 +182,7 @@ def main(argv=None):
         return 2
 
     evaluations = 0
+    executions = 0
     nontrivial = set()
     labels = Counter()
     skipped = Counter()
@@ -196,6 +197,7 @@ def main(argv=None):
         pf["evaluations"] += r["evaluations"]
         pf["nontrivial"].update(r["nontrivial"])
         evaluations += r["evaluations"]
+        executions += r.get("executions", 0)
         nontrivial.update((fam_name, h) for h in r["nontrivial"])
         labels.update(r["labels"])
         skipped.update(r["skipped"])
@@ -278,6 +280,7 @@ def main(argv=None):
     level = getattr(mod, "LEVEL", "exploration")
     cov = {
         "evaluations": evaluations,
+        "executions_of_code_under_test": executions,
         "distinct_nontrivial": len(nontrivial),
         "rule": getattr(mod, "RULE", ""),
         "samples": samples[:8] or [{"note": "no sample recorded"}],
